@@ -204,6 +204,9 @@ pub fn worker_hook(p: Point) {
         ctl.events.push((stamp(), EvKind::Point(p)));
     }
     if ctl.pause_at[slot] == Some(p) {
+        if std::env::var_os("C20_TRACE").is_some() {
+            eprintln!("{:?} hook: pausing at {p:?} (release flag {:?})", Instant::now(), ctl.release);
+        }
         ctl.paused[slot] = Some(p);
         ctl.pause_at[slot] = None;
         CTL_CV.notify_all();
@@ -213,6 +216,9 @@ pub fn worker_hook(p: Point) {
             if ctl.release[slot] {
                 ctl.release[slot] = false;
                 ctl.paused[slot] = None;
+                if std::env::var_os("C20_TRACE").is_some() {
+                    eprintln!("{:?} hook: released", Instant::now());
+                }
                 break;
             }
             let now = Instant::now();
@@ -271,6 +277,9 @@ pub fn wait_paused(slot: usize, ms: u64) -> bool {
         }
         let now = Instant::now();
         if now >= deadline {
+            if std::env::var_os("C20_TRACE").is_some() {
+                eprintln!("wait_paused({slot}, {ms}) timed out; pause_at={:?}", g.as_ref().map(|c| c.pause_at));
+            }
             return false;
         }
         let (ng, _) = CTL_CV.wait_timeout(g, deadline - now).unwrap();
@@ -333,6 +342,22 @@ pub fn wait_hit(p: Point, before: u64, ms: u64) -> bool {
             return false;
         }
         std::thread::sleep(Duration::from_micros(200));
+    }
+}
+
+/// waits until every background run spawned so far has returned (needs recording of hits, i.e. the hook installed)
+pub fn wait_no_run_pending(ms: u64) -> bool {
+    let deadline = Instant::now() + Duration::from_millis(ms);
+    loop {
+        if hits(Point::TickBeforeSpawn) <= hits(Point::RunReturn) {
+            // the closure still has to drop its guard after RunReturn
+            std::thread::sleep(Duration::from_micros(200));
+            return true;
+        }
+        if Instant::now() >= deadline {
+            return false;
+        }
+        std::thread::sleep(Duration::from_micros(100));
     }
 }
 
@@ -1026,7 +1051,15 @@ pub fn run_random(opts: &Opts, rep: &mut Report, props: &[&str]) {
         }
         let mut rng = Rng::new(mix(&[opts.seed, opts.shard, idx, 6]));
         reset_ctl(false);
-        let threads = if opts.small { rng.range(1, 2) } else { *rng.pick(&[1usize, 2, 3, 4, 8, 16]) };
+        // occasionally more worker threads than hardware threads
+        let hw = std::thread::available_parallelism().map_or(4, |n| n.get());
+        let threads = if opts.small {
+            rng.range(1, 2)
+        } else if rng.chance(1, 10) {
+            hw + rng.range(1, 9)
+        } else {
+            *rng.pick(&[1usize, 2, 3, 4, 8, 16])
+        };
         let cols = rng.range(1, 3);
         let mut w = World::new(format!("{}:{}:{}", opts.seed, opts.shard, idx), &mut rng, threads, cols, None);
         let nsteps = if opts.small { rng.range(4, 10) } else { rng.range(5, 60) };
@@ -1187,7 +1220,7 @@ pub fn run_random(opts: &Opts, rep: &mut Report, props: &[&str]) {
         w.check_quiescent(rep);
         w.check_active_injectors("quiescent");
         rep.count("histories");
-        rep.count(&format!("threads.{threads}"));
+        rep.count(&format!("threads.{}", if threads > hw { "above-hardware".to_string() } else { threads.to_string() }));
         hsh.add(threads as u64 * 131 + cols as u64);
         hsh.add(w.invoked.lock().unwrap().values().map(|v| *v as u64).sum::<u64>());
         rep.distinct(hsh.finish());
